@@ -113,7 +113,7 @@ Print Assumptions C19_comment_model_refuted.
    (PEG core; used by the properties that state interpreter-level theorems "if the run is not Aborted 0").
    For grammar tables accepted by the decidable check [terminating rxn g] (Proofs/PegTerm.v: no left
    recursion w.r.t. a nullability over-approximation, repetition elements that cannot be truthy without
-   consuming, a Comment rule that cannot succeed without consuming, no unordered group), every
+   consuming, a Comment rule that cannot succeed without consuming; unordered groups included), every
    configuration, both memoization settings, every oracle that stays inside the input and whose regex
    matches are non-empty for the oracle ids with [rxn o = false], the interpreter does not run out of
    fuel once the fuel reaches the computable [fuel_bound rxn g input]. *)
